@@ -258,3 +258,85 @@ def _traversal(repo):
             f"def codegenAsConstUses : Nat := {others}")
     return {"variants": variants, "arms": arms, "specials": specials, "as_const_uses": others,
             "call_args_sites": sorted(set(args_sites)), "call_sites": sorted(set(call_sites))}, lean
+
+
+@item("C04_CONST_SITES")
+def _const_sites(repo):
+    """Where the code generator can put a value into the instruction stream or look at the literal-ness of
+    an operand: every `Instruction::LoadConst(..)` site (function, normalised argument) and every place
+    where `codegen.rs` pattern-matches a literal or container variant of `ast::Expr`.  A new precomputed
+    constant (a lookup table, a pre-joined string, a cached comparison …) needs a new row."""
+    cg = read(repo, CG)
+    def owner(pos):
+        fns = re.findall(r"fn (\w+)\s*[(<]", cg[:pos])
+        return fns[-1] if fns else "?"
+    loads = []
+    for m in re.finditer(r"Instruction::LoadConst\(", cg):
+        depth, j = 1, m.end()
+        while depth and j < len(cg):
+            depth += {"(": 1, ")": -1}.get(cg[j], 0)
+            j += 1
+        arg = _norm(cg[m.end():j - 1])
+        arg = re.sub(r"\s+", " ", arg)
+        if len(arg) > 60:
+            arg = arg[:60]
+        loads.append((owner(m.start()), arg))
+    if not loads:
+        raise KeyError("LoadConst sites")
+    looks = []
+    for m in re.finditer(r"ast::Expr::(Const|List|Tuple|Map)\b", cg):
+        looks.append((owner(m.start()), m.group(1)))
+    rows1 = sorted(set(loads))
+    counts = {}
+    for x in looks:
+        counts[x] = counts.get(x, 0) + 1
+    rows2 = sorted((f, v + ":" + str(n)) for (f, v), n in counts.items())
+    lean = ("def loadConstSites : List (String × String) := [" + ", ".join("(%s, %s)" % (lean_str(a), lean_str(b)) for a, b in rows1) + "]\n"
+            "def literalMatchSites : List (String × String) := [" + ", ".join("(%s, %s)" % (lean_str(a), lean_str(b)) for a, b in rows2) + "]")
+    return {"loads": rows1, "literal_matches": rows2}, lean
+
+
+@item("C04_STMT_TRAVERSAL")
+def _stmt_traversal(repo):
+    """Statement lists of the AST and the loops of `codegen.rs` that compile them: every
+    `Vec<Stmt>` field of `ast.rs` (struct, field), every call of `compile_stmt` in `codegen.rs` as
+    (function, `<var>.<field>` of the canonical loop `for node in &var.field { self.compile_stmt(node); }`,
+    or `?…` for any other shape), and the conditions of the `if`s of the functions that contain such loops.
+    A statement list compiled under a condition on a constant (branch elimination) or skipped shows here."""
+    ast = read(repo, AST)
+    fields = []
+    for m in re.finditer(r"pub struct (\w+)<'a>\s*\{(.*?)\n\}", ast, re.S):
+        for f in re.findall(r"pub (\w+): Vec<Stmt<'a>>", m.group(2)):
+            fields.append((m.group(1), f))
+    if not fields:
+        raise KeyError("Vec<Stmt> fields")
+    cg = read(repo, CG)
+    def owner(pos):
+        fns = re.findall(r"fn (\w+)\s*[(<]", cg[:pos])
+        return fns[-1] if fns else "?"
+    loops = []
+    canon = re.compile(r"for node in &(\w+)\.(\w+) \{\s*(?:self|sub)\.compile_stmt\(node\);\s*\}")
+    covered = set()
+    for m in canon.finditer(cg):
+        loops.append((owner(m.start()), m.group(1) + "." + m.group(2)))
+        covered.add(cg.index("compile_stmt(node)", m.start()))
+    for m in re.finditer(r"compile_stmt\(", cg):
+        if m.start() in covered or cg[max(0, m.start() - 7):m.start()] == "pub fn ":
+            continue
+        line = cg[cg.rfind("\n", 0, m.start()) + 1:cg.find("\n", m.start())]
+        loops.append((owner(m.start()), "?" + _norm(line)[:50]))
+    conds = []
+    for fn in sorted(set(f for f, _ in loops)):
+        if fn == "compile_stmt":
+            body = fn_body(cg, r"pub fn compile_stmt\(&mut self, stmt: &ast::Stmt<'source>\)\s*\{")
+        else:
+            body = fn_body(cg, r"fn %s\(" % fn)
+        for c in re.findall(r"\bif ([^{]+)\{", body):
+            conds.append((fn, _norm(c)[:70]))
+    loops = sorted(set(loops))
+    conds = sorted(set(conds))
+    pair = lambda rows: "[" + ", ".join("(%s, %s)" % (lean_str(a), lean_str(b)) for a, b in rows) + "]"
+    lean = ("def stmtListFields : List (String × String) := " + pair(fields) + "\n"
+            "def stmtCompileLoops : List (String × String) := " + pair(loops) + "\n"
+            "def stmtCompileConds : List (String × String) := " + pair(conds))
+    return {"fields": fields, "loops": loops, "conds": conds}, lean
